@@ -190,6 +190,10 @@ MetaInvalidate(cs, v, k) == COk([cs EXCEPT !.mi[v] = @ \cup {k}])
 NodeMetaPut(cs, n, k) == COk([cs EXCEPT !.nmd[n] = @ \cup {k}])
 GraphMetaPut(cs, g, k) == COk([cs EXCEPT !.gmd[g] = @ \cup {k}])
 AttrPut(cs, n, k) == COk([cs EXCEPT !.nat[n] = @ \cup {k}])
+\* node.attributes.update({k1: Attr, k2: x}) : x is an Attr (flag) or something else - then the whole update is rejected
+\* (C06: the first item is not stored either)
+AttrUpdate2(cs, n, k1, k2, ok2) ==
+  IF ~ok2 THEN CRej(cs, "type") ELSE COk([cs EXCEPT !.nat[n] = @ \cup {k1, k2}])
 AttrDel(cs, n, k) == IF k \notin cs.nat[n] THEN CRej(cs, "absent") ELSE COk([cs EXCEPT !.nat[n] = @ \ {k}])
 SetConst(cs, v, b) == COk([cs EXCEPT !.s.vConst[v] = b])
 
@@ -208,6 +212,7 @@ CApply(cs, c) ==
     [] c.op = "NodeMetaPut"  -> NodeMetaPut(cs, c.n, c.name)
     [] c.op = "GraphMetaPut" -> GraphMetaPut(cs, c.g, c.name)
     [] c.op = "AttrPut"      -> AttrPut(cs, c.n, c.name)
+    [] c.op = "AttrUpdate2"  -> AttrUpdate2(cs, c.n, c.name, c.k, c.flag)
     [] c.op = "AttrDel"      -> AttrDel(cs, c.n, c.name)
     [] c.op = "SetConst"     -> SetConst(cs, c.v, c.flag)
     [] OTHER -> LET r == Apply(cs.s, c) IN [s |-> Pad([cs EXCEPT !.s = r.s]), out |-> r.out]
